@@ -376,8 +376,9 @@ fn pool(profile: &str, rng: &mut Rng, tok: u64) -> Vec<u8> {
     let opq = rng.next() as u32;
     let cas_choices = [0u64, 0, tok, tok, 99];
     let cas = *rng.pick(&cas_choices);
-    let ttl = *rng.pick(&[0u32, 0, 0, 50]);
-    let base: usize = if matches!(profile, "C03" | "C02" | "C05") { 4 } else { 10 };
+    // 3 and 5: shorter than the age (10) of the expired initial item, yet live when stored now
+    let ttl = *rng.pick(&[0u32, 0, 0, 50, 3, 5]);
+    let base: usize = if matches!(profile, "C03" | "C02" | "C05") { 4 } else if profile == "C06" { 8 } else { 10 };
     if profile == "C02" {
         // every mutation carries a CAS: the item's current one (mostly) or a stale one
         let c = *rng.pick(&[tok, tok, tok, 99]);
@@ -503,7 +504,7 @@ pub fn windows(steps: &[(usize, &'static str)], programs: &[Vec<Vec<u8>>]) -> Ve
                     let opc = programs[t].get(cmd_idx).map(|f| f[1]).unwrap_or(0xff);
                     if let (Some(a), true) = (cur, is_rmw(opc)) {
                         // the store call of a get-then-set command: anything foreign in its window?
-                        let foreign = steps[a + 1..pos].iter().any(|(w, x)| *w != t && matches!(*x, "set" | "delete" | "flush" | "check_if_expired"));
+                        let foreign = steps[a + 1..pos].iter().any(|(w, x)| *w != t && matches!(*x, "set" | "delete" | "flush"));
                         if foreign {
                             let name = match opc {
                                 0x02 => "add",
@@ -628,10 +629,28 @@ pub fn linearizable(case: &Case, replay_setup: &dyn Fn() -> World, outcome: &Out
                     }
                     Unit::Rest => {
                         let before = ex.completed(*t);
+                        // the late collection may only make an EXPIRED record vanish: that is all the specification's
+                        // looseness allows (the reference must not inherit a defect of the collector itself)
+                        let recs_before = crate::sut::Sut::records_of(&w.mem);
                         ex.grant(*t);
                         let _ = ex.parked_at(*t);
                         if ex.completed(*t) == before {
                             legal = false; // the command went on to a store call: not a one-at-a-time execution
+                            break;
+                        }
+                        let recs_after = crate::sut::Sut::records_of(&w.mem);
+                        let now = w.clock.0.load(std::sync::atomic::Ordering::SeqCst);
+                        for (k, r) in &recs_before {
+                            let still = recs_after.iter().any(|(k2, r2)| k2 == k && r2 == r);
+                            let expired = r.ttl != 0 && r.ts + r.ttl as u64 <= now;
+                            if !still && !expired {
+                                legal = false;
+                            }
+                        }
+                        if recs_after.iter().any(|(k2, r2)| !recs_before.iter().any(|(k, r)| k == k2 && r == r2)) {
+                            legal = false;
+                        }
+                        if !legal {
                             break;
                         }
                     }
@@ -800,12 +819,32 @@ pub fn run_suite(profile: &str, seed: u64, count: u64, per_case: usize, mut trac
                 let mut props: Vec<&'static str> = if only_c03_cmds { vec!["C03", "C04"] } else { vec!["C04"] };
                 if only_c03_cmds {
                     props.extend(also_broken(&case.programs, &outcome));
+                } else if ws.is_empty() {
+                    props.extend(also_broken_rmw(&case.programs, case.init));
                 }
                 viols.push((start, end, props, msg));
             }
         }
     }
     (ops, outs, viols, st)
+}
+
+/// a non-linearizable outcome of programs with read-modify-write commands that NO get->set window explains (no foreign
+/// mutating call inside any of them): the presence test or the write-back of a conditional store / counter command went
+/// wrong by itself — C06 / C07 for the command kinds involved, C05 when the item the commands found was an expired one
+pub fn also_broken_rmw(programs: &[Vec<Vec<u8>>], init: &str) -> Vec<&'static str> {
+    let mut out = vec![];
+    let opcs: Vec<u8> = programs.iter().flatten().map(|f| f[1]).collect();
+    if opcs.iter().any(|o| matches!(o, 0x02 | 0x03 | 0x0e | 0x0f | 0x12 | 0x13 | 0x19 | 0x1a)) {
+        out.push("C06");
+    }
+    if opcs.iter().any(|o| matches!(o, 0x05 | 0x06 | 0x15 | 0x16)) {
+        out.push("C07");
+    }
+    if init == "expired" {
+        out.push("C05");
+    }
+    out
 }
 
 /// which other properties a non-linearizable outcome of get/set/delete programs also breaks:
